@@ -12,9 +12,10 @@ from vlib.core import q, qmat, qvec, nat, coqbool, coqlist
 IMPORTS = ("From Coq Require Import List QArith.\nFrom RV Require Import base.Num run.RunC04.\n"
            "Import ListNotations.\nOpen Scope Q_scope.")
 TRUSTED = [
-    "scipy.linalg.solve (LAPACK, assume_a='sym') is a Section Variable `solve` with hypothesis `solve_ok` "
-    "(returns a d x m solution of A X = B whenever A is square with trivial kernel) in coq/proofs/Ridge_proofs.v; the theorems "
-    "C04_normal_equations_imply_optimal / _unique do not use it, and every run re-checks the normal equations on the OBSERVED Wout/bias",
+    "scipy.linalg.solve (LAPACK, assume_a='sym') is a Section Variable `solve` with hypothesis `solve_ok : solve_spec solve d m` "
+    "(returns a d x m solution of A X = B whenever A is d x d with a trivial kernel -- which C04_system_nonsingular proves for "
+    "XXT + lam I) in coq/props/C04.v; C04_normal_equations_imply_optimal / _unique / C04_accumulators_are_gram do not use it, and "
+    "every run re-checks the normal equations on the OBSERVED Wout/bias",
     "Gauss-Jordan over Q (base/LA.v qsolve) stands in for LAPACK in the correspondence runs only (its result is compared, not trusted)",
     "numpy X.T.dot(X), Y.T.dot(X), np.hstack, slicing X[warmup:] are given the list-level meaning of base/LA.v "
     "(mm/transpose/madd, skipn); compared with the library on every run through the fitted parameters",
